@@ -41,7 +41,9 @@ COMPONENTS = [".", "..", "in.bin", "sub", "sub/in2.bin", "", "link_in", "link_ou
               # '..' right after a directory symlink: lexical normalisation and the file system disagree about where this leads
               "dlink_out/..", "dlink_out/../canary.bin", "dlink_in/..", "dlink_in/../in.bin", "dlink_out/../base/in.bin", "dlink_out/odir/../canary.bin",
               # symbolic links that stay inside the base but end at a hard-linked file, and chains of links
-              "link_hard_in", "link_hard_out", "link_chain", "link_chain_hard", "sub/link_up_hard", "dlink_in/link_up_hard"]
+              "link_hard_in", "link_hard_out", "link_chain", "link_chain_hard", "sub/link_up_hard", "dlink_in/link_up_hard",
+              # the sibling directory whose name has the base's name as a prefix, reached directly and through links
+              "../base_evil/evil.bin", "link_evil", "dlink_evil/evil.bin", "sub/../../base_evil/evil.bin"]
 BASES = ["abs", "rel", "abs_slash", "via_symlink", "dotdot", "dot", "rel_dotslash", "abs_unnorm"]
 ENTRIES = ["numpy", "__array__", "tobytes", "tofile_bytesio", "tofile_file", "lazy", "load_to_model", "save"]
 # where the external tensor sits in the loaded model
@@ -92,6 +94,8 @@ def make_tree(root):
     os.link(os.path.join(base, "hsrc.bin"), os.path.join(base, "hard_in"))
     os.link(os.path.join(root, "outside", "odir", "deep.bin"), os.path.join(base, "hard_out"))
     os.symlink("base", os.path.join(root, "base_link"))
+    os.symlink(os.path.join("..", "base_evil", "evil.bin"), os.path.join(base, "link_evil"))
+    os.symlink(os.path.join("..", "base_evil"), os.path.join(base, "dlink_evil"))
     os.symlink("hard_in", os.path.join(base, "link_hard_in"))
     os.symlink("hard_out", os.path.join(base, "link_hard_out"))
     os.symlink("link_in", os.path.join(base, "link_chain"))
